@@ -47,7 +47,7 @@ def evidence_C09(agg, tier):
                  "the lazy code path really differed for that value."),
         "fault_kinds_fired": fault_kinds,
         "probes": {k: c.get(k, 0) for k in ("restart_of_parser_prefilled", "restart_twin_of_twin", "pair_reads", "pair_deeps", "pair_basics",
-                                            "pair_reads_after_size0", "twin_read_derives_netloc", "cross_process_twins", "pair_derives", "pair_basics_with_third_url", "pair_basics_with_respelled_third_url", "derive_restart_chains", "alien_hash_salt_twins")},
+                                            "pair_reads_after_size0", "twin_read_derives_netloc", "cross_process_twins", "pair_derives", "pair_basics_with_third_url", "pair_basics_with_respelled_third_url", "derive_restart_chains", "construct_restart_chains", "alien_hash_salt_twins")},
         "state_measure": "distinct_states = distinct (route that produced the original, kind of restart, set of memo keys the original held at the restart) triples",
         "restarts_by_route_of_original": {k[len("restart_of_route_"):]: v for k, v in sorted(c.items()) if k.startswith("restart_of_route_")},
         "ops_executed": c.get("ops", 0),
@@ -75,13 +75,14 @@ def evidence_C08(agg, tier):
         "rule": ("one evaluation = one simulated run: a warm process (swarm-drawn LRU sizes 0/1/2/3/8/128/unbounded for the nine internal "
                  "caches, cache_configure sizes, 0-300 prelude calls, cache_clear/cache_configure/lru re-wrap/gc faults interleaved) executes a "
                  "seeded program of 3-40 operations with monitors M1/M2/M3 after every operation; then every operation is re-evaluated in "
-                 "its own pristine fork that executes only the derivation closure of its operands, and outcomes (value or exception, plus "
+                 "its own pristine fork that executes only the derivation closure of its operands (in a seeded third of them every URL operand role is played by its own unpickled twin), and outcomes (value or exception, plus "
                  "deep observation when drawn) must be equal. distinct_nontrivial = distinct (operation list, knobs) hashes among runs in "
                  "which a cache fault (clear/configure/re-wrap/eviction/size-0 miss) took effect between two operations sharing an operand "
                  "or a text argument."),
         "fault_kinds_fired": {k[len("fault_"):]: v for k, v in sorted(c.items()) if k.startswith("fault_")},
         "probes": {k[len("probe_"):]: v for k, v in sorted(c.items()) if k.startswith("probe_")},
         "cold_reference_forks": c.get("cold_reference_forks", 0),
+        "cold_references_with_decoupled_operands": c.get("cold_references_with_decoupled_operands", 0),
         "ops_executed": c.get("ops", 0),
         "ops_raised": c.get("ops_raised", 0),
         "state_measure": "distinct_states = distinct (operation name, set of memo keys already filled on the operand, occupancy class empty/partial/full/off of each of the nine LRUs) triples reached",
